@@ -15,28 +15,7 @@ import numpy as np
 
 from svx.contract import and_, unit
 
-from .c_coupling import S_ as _S_sym, object_array_modules as _object_array_modules
-
-_NATIVE = [False]
-
-
-def S_(x):
-    """exact symbol in the symbolic mode; plain float when the same unit text replays on the compiled code"""
-    if _NATIVE[0]:
-        return float(x)
-    return _S_sym(x)
-
-
-def object_array_modules(*mods):
-    return contextlib.nullcontext() if _NATIVE[0] else _object_array_modules(*mods)
-
-
-def fresh(K, name, shape):
-    """arbitrary (stale) prior content under a stable name, so that a counterexample can be replayed"""
-    if K.mode == "sym":
-        from svx import objnp
-        return objnp.fresh(name, shape)
-    return K.array(name, shape)
+from .c_coupling import _NATIVE, S_, fresh, object_array_modules
 
 
 def const_arr(K, shape, c):
